@@ -38,7 +38,11 @@ RULE = ("corr: dyadic k/grid points with integer shifts of both signs, quarter-g
         "proportional to 1, checked), 16 tabulators, every FormulaProduct/FormulaSum of formula.covariant as a tabulator "
         "and every StaticCalculator that can be evaluated (found by introspection; 27 of 34, incl. the three-factor "
         "Hall_classic_FermiSurf, NLDrude_Fermider2, eMChA_FermiSurf).  non-trivial = G != 0 / at least one multiplet is rotated; "
-        "distinct = distinct (kind, seed, parameters)")
+        "distinct = distinct (kind, seed, parameters).  Every public route to k-resolved quantities is exercised "
+        "on systems with exact multiplets whose members differ (band-touching, PT-symmetric pairs H0/H0^T, H0 (x) 1_m with "
+        "arbitrary external matrices): evaluate_k(quantities=all of available_quantities) with iband None / list / int / "
+        "single quantity, evaluate_k(formula=...) traced over complete groups, evaluate_k(calculators=...), "
+        "evaluate_k_path; each for random_gauge on/off and k vs k+G, plus mutual consistency of the routes")
 
 
 # ------------------------------------------------------------------------------------------------
@@ -342,9 +346,10 @@ def case_periodic_kp(ctx, case):
                 tol=1e-7)
 
 
-def multiplet_system(rs, n0, m, paired):
+def multiplet_system(rs, n0, m, paired, pt=False):
     """Hermitian system whose Hamiltonian is H0 (x) 1_m (exact m-fold multiplets at every k) with arbitrary Hermitian
-    external-term matrices; paired=True puts the m copies on the same centre"""
+    external-term matrices; paired=True puts the m copies on the same centre.  pt=True: the odd copies carry the
+    transposed blocks H0(R)^T, i.e. H0(k)^* - same spectrum, opposite internal Berry curvature (PT-symmetric pairs)"""
     from ..wbsys import rand_system
     centers = None
     if paired:
@@ -356,7 +361,7 @@ def multiplet_system(rs, n0, m, paired):
         Hs = H[:, 0::m, 0::m].copy()
         Hn = np.zeros_like(H)
         for i in range(m):
-            Hn[:, i::m, i::m] = Hs
+            Hn[:, i::m, i::m] = Hs.swapaxes(1, 2) if (pt and i % 2) else Hs
         s.set_R_mat("Ham", Hn, reset=True)
     return s
 
@@ -564,7 +569,117 @@ def case_touch_run(ctx, case):
                 dict(case, calculator=name, Efermi=Ef, NK=NK, levels=e2, velocity_block_deviation=dev))
 
 
-RUNNERS = {"touch_k": case_touch_k, "touch_run": case_touch_run, "periodic": case_periodic, "periodic_kp": case_periodic_kp, "gauge_k": case_gauge_k, "gauge_run": case_gauge_run}
+def band_groups(E, thr=1e-4):
+    g, a = [], 0
+    for i in range(1, len(E) + 1):
+        if i == len(E) or E[i] - E[i - 1] > thr:
+            g.append((a, i))
+            a = i
+    return g
+
+
+def routes_at_k(s, k, rg, sub, single, grp, seed):
+    """every public route of evaluate_k to k-resolved quantities at one k; returns {label: array}"""
+    from ..wbsys import wb
+    from wannierberri.evaluate_k import available_quantities
+    from wannierberri.formula import covariant as frml
+    P = {"random_gauge": rg}
+    qs = list(available_quantities)
+    out = {}
+    with quiet():
+        np.random.seed(seed)
+        r = wb.evaluate_k(s, k=k, quantities=qs, parameters_K=P)
+        for q in qs:
+            out[f"quantities[{q}]"] = np.array(r[q])
+        r = wb.evaluate_k(s, k=k, quantities=qs, iband=list(sub), parameters_K=P)
+        for q in qs:
+            out[f"quantities[{q}],iband={list(sub)}"] = np.array(r[q])
+        r = wb.evaluate_k(s, k=k, quantities=qs, iband=int(single), parameters_K=P)
+        for q in qs:
+            out[f"quantities[{q}],iband={int(single)}"] = np.array(r[q])
+        r = wb.evaluate_k(s, k=k, quantities=[qs[0]], parameters_K=P)      # single quantity, bare array returned
+        out[f"quantities[{qs[0]}] alone"] = np.array(r)
+        forms = {"Omega": frml.Omega, "Spin": frml.Spin, "Velocity": frml.Velocity, "DerOmega": frml.DerOmega,
+                 "VelVelVel": frml.VelVelVel}
+        r = wb.evaluate_k(s, k=k, formula=forms, iband=list(grp), parameters_K=P)
+        for name in forms:
+            out[f"formula[{name}] traced over bands {list(grp)}"] = np.einsum("nn...->...", np.array(r[name]))
+        tabs = tabulators()
+        r = wb.evaluate_k(s, k=k, calculators={n: tabs[n] for n in ("energy", "berry_curvature", "spin")}, parameters_K=P)
+        for n in ("energy", "berry_curvature", "spin"):
+            out[f"calculators[{n}]"] = np.array(r[n].data[0])
+    return out
+
+
+def case_routes(ctx, case):
+    """all public routes (quantities= with/without iband, formula=, calculators=, evaluate_k_path) on a system with
+    exact multiplets whose members differ: random gauge on/off, and k vs k+G"""
+    from ..wbsys import wb
+    from wannierberri.evaluate_k import available_quantities, evaluate_k_path
+    rs = np.random.RandomState(case["seed"])
+    if case["system"] == "touching":
+        k = np.array(case["k0"], dtype=float)
+        s, i0, e2 = touching_system(rs, case["nw"], k, case["m"])
+    else:
+        s = multiplet_system(rs, case["n0"], case["m"], case["paired"], pt=(case["system"] == "pt"))
+        k = rs.uniform(0, 1, 3)
+    G = np.array(case["G"], dtype=int)
+    with quiet():
+        E = np.array(wb.evaluate_k(s, k=k, quantities=["energy"]))
+    groups = band_groups(E)
+    multi = [g for g in groups if g[1] - g[0] > 1]
+    ctx.case(signature=("routes", case["seed"], case["system"], tuple(case["G"])), nontrivial=len(multi) > 0)
+    if not multi:
+        ctx.fail("the generated system has no multiplet at the chosen k (generator broken)", dict(case, energies=E))
+        return
+    if min(np.diff(E)[np.diff(E) > 1e-4], default=1.0) < 1e-3:
+        ctx.count("oracle.routes.skipped_small_gap")
+        return
+    NB = len(E)
+    g0 = multi[int(rs.randint(len(multi)))]
+    sub = sorted(set([g0[0]] + [int(x) for x in rs.choice(NB, size=int(rs.randint(1, NB + 1)), replace=False)]))
+    single = int(rs.randint(g0[0], g0[1]))
+    chosen = [g for g in groups if rs.rand() < 0.5] or [g0]
+    grp = [i for g in chosen for i in range(*g)]
+    sd = case["seed"] % 10000 + 11
+    ref = routes_at_k(s, k, False, sub, single, grp, sd)
+    rg_ = routes_at_k(s, k, True, sub, single, grp, sd)
+    sh_ = routes_at_k(s, k + G, False, sub, single, grp, sd)
+    info = dict(case, k=k, energies=E, iband_subset=sub, iband_single=single, formula_bands=grp)
+    for lab in ref:
+        compare(ctx, f"evaluate_k {lab}: random_gauge=True vs False ({case['system']} system, multiplets {multi})",
+                ref[lab], rg_[lab], dict(info, route=lab))
+        compare(ctx, f"evaluate_k {lab}: k vs k+G, G={G.tolist()} ({case['system']} system, multiplets {multi})",
+                ref[lab], sh_[lab], dict(info, route=lab))
+    # the routes must agree with each other: slicing by iband, and quantities= vs calculators=
+    for q in available_quantities:
+        full = ref[f"quantities[{q}]"]
+        compare(ctx, f"evaluate_k quantities[{q}] with iband={sub} is not the slice of the result for all bands",
+                full[sub], ref[f"quantities[{q}],iband={sub}"], dict(info, route=q), tol=1e-10)
+        compare(ctx, f"evaluate_k quantities[{q}] with iband={single} is not the slice of the result for all bands",
+                full[[single]], ref[f"quantities[{q}],iband={single}"], dict(info, route=q), tol=1e-10)
+    for q, n in (("energy", "energy"), ("berry_curvature", "berry_curvature"), ("spin", "spin")):
+        compare(ctx, f"evaluate_k quantities[{q}] differs from the same tabulator passed through calculators=",
+                ref[f"quantities[{q}]"], ref[f"calculators[{n}]"], dict(info, route=q), tol=1e-10)
+    # path route through the k-point
+    if case.get("path"):
+        qs = list(available_quantities)
+        res = []
+        for shift, rg in ((0 * G, False), (0 * G, True), (G, False)):
+            nodes = [list(np.array(n_, dtype=float) + shift) for n_ in ([0.0, 0.0, 0.0], list(k), [0.5, 0.5, 0.5] if np.any(np.abs(k - 0.5) > 1e-9) else [0.25, 0.5, 0.0])]
+            with quiet():
+                np.random.seed(sd)
+                _, r = evaluate_k_path(s, nodes=nodes, labels=["A", "B", "C"], length=case["path"], quantities=qs,
+                                       parallel=False, parameters_K={"random_gauge": rg})
+            res.append(r)
+        for q in qs:
+            a = res[0].results[q].data
+            compare(ctx, f"evaluate_k_path {q}: random_gauge=True vs False", a, res[1].results[q].data, dict(info, route="path:" + q))
+            compare(ctx, f"evaluate_k_path {q}: path vs path shifted by G={G.tolist()}", a, res[2].results[q].data,
+                    dict(info, route="path:" + q), tol=1e-7)
+
+
+RUNNERS = {"routes": case_routes, "touch_k": case_touch_k, "touch_run": case_touch_run, "periodic": case_periodic, "periodic_kp": case_periodic_kp, "gauge_k": case_gauge_k, "gauge_run": case_gauge_run}
 
 
 def rand_G(rng):
@@ -588,7 +703,7 @@ def rand_k(rng):
 def oracle(ctx, scale):
     rng = ctx.rng
     cases = []
-    for _ in range(ctx.n(8, 80) * scale):
+    for _ in range(ctx.n(6, 80) * scale):
         cases.append(dict(kind="periodic", seed=rng.getrandbits(31), nw=rng.randint(2, 5), k=rand_k(rng), G=rand_G(rng)))
     for _ in range(ctx.n(4, 30) * scale):
         cases.append(dict(kind="periodic_kp", coef=[rng.choice([1.0, 0.5, 2.0]), rng.choice([1.0, -0.7]), rng.choice([0.0, 0.4])],
@@ -603,9 +718,20 @@ def oracle(ctx, scale):
     for _ in range(ctx.n(5, 40) * scale):
         cases.append(dict(kind="touch_k", seed=rng.getrandbits(31), nw=rng.randint(3, 5), m=rng.choice([2, 2, 3]),
                           k0=rng.choice(K0S + [[0.25, 0.125, 0.375]])))
-    for _ in range(ctx.n(2, 10) * scale):
+    for _ in range(ctx.n(1, 10) * scale):
         cases.append(dict(kind="touch_run", seed=rng.getrandbits(31), nw=rng.randint(3, 4), m=rng.choice([2, 2, 3]),
                           k0=rng.choice(K0S), NKdiv=[1, 1, 1]))
+    for it in range(ctx.n(6, 40) * scale):
+        sysk = rng.choice(["touching", "pt", "multiplet"])
+        c = dict(kind="routes", seed=rng.getrandbits(31), system=sysk, G=rand_G(rng), m=rng.choice([2, 2, 3]),
+                 path=(rng.choice([12, 20]) if it % 3 == 0 else 0))
+        if sysk == "touching":
+            c.update(nw=rng.randint(3, 5), k0=rng.choice(K0S[1:] + [[0.25, 0.125, 0.375]]))
+        else:
+            c.update(n0=rng.randint(1, 2), paired=rng.random() < 0.5)
+            if sysk == "pt":
+                c["m"] = 2
+        cases.append(c)
     for case in cases:
         ctx.count(f"oracle.{case['kind']}")
         with ctx.attempt(f"{case['kind']} case", case):
